@@ -412,6 +412,10 @@ def evaluate_ifdefs(text):
 
 def get_canonical_path(fpath: Path) -> str:
     if not isinstance(fpath, Path) or fpath.kind == Path.FILE:
-        return Path(os.path.realpath(fpath))
+        try:
+            return Path(os.path.realpath(fpath))
+        except ValueError:
+            # E.g., a NUL character in the path: no such file can exist.
+            return Path(fpath)
     else:
         return fpath
